@@ -57,6 +57,12 @@ type foScenario struct {
 	FaultAt   map[int]bool // backend call-outs (global index) that fail
 	SchedSeed int64
 	Label     string
+	// systematic exploration (profile dfs): scheduling decisions are replayed from Choices, then always the first enabled
+	// goroutine is taken; Taken records (choice, number of alternatives) per decision for the backtracking driver
+	LateReads, LateWrites bool // backend answers are held back: effect and answer are separate scheduling points
+	DFS                   bool
+	Choices               []int
+	Taken                 *[][2]int
 }
 
 func (sc foScenario) describe() map[string]interface{} {
@@ -102,7 +108,7 @@ func (sc foScenario) describe() map[string]interface{} {
 	}
 	sort.Ints(fs)
 	return map[string]interface{}{"config": sc.Cfg.String(), "keys": strings.Join(ks, " "), "gets": strings.Join(ts, " "),
-		"builder_script": strings.Join(bs, ","), "backend_faults_at_callout": fs, "schedule_seed": sc.SchedSeed, "label": sc.Label}
+		"builder_script": strings.Join(bs, ","), "backend_faults_at_callout": fs, "schedule_seed": sc.SchedSeed, "label": sc.Label, "dfs_choices": sc.Choices, "late_read_answers": sc.LateReads, "late_write_answers": sc.LateWrites}
 }
 
 func foKeyBytes(k int) []byte { return []byte(fmt.Sprintf("fo-key-%d", k)) }
@@ -502,7 +508,20 @@ func runFoScenario(d *Driver, id string, sc foScenario, res *Result) (trace []st
 		if len(enabled) == 0 {
 			break
 		}
-		t := enabled[rng.Intn(len(enabled))]
+		var t int
+		if sc.DFS {
+			c := 0
+			if n := len(*sc.Taken); n < len(sc.Choices) {
+				c = sc.Choices[n]
+			}
+			if c >= len(enabled) {
+				c = 0 // (a replayed prefix always fits: the run is deterministic)
+			}
+			*sc.Taken = append(*sc.Taken, [2]int{c, len(enabled)})
+			t = enabled[c]
+		} else {
+			t = enabled[rng.Intn(len(enabled))]
+		}
 		var step string
 		var line string
 		t0 := now()
@@ -558,8 +577,16 @@ func runFoScenario(d *Driver, id string, sc foScenario, res *Result) (trace []st
 			s.mu.Unlock()
 			dir := &directive{}
 			k := kidOf(co.key)
-			switch co.kind {
-			case "read", "write":
+			if co.phase == 1 {
+				// deliver the held-back answer; the model hears about the call only now
+				step = fmt.Sprintf("deliver to g%d the answer of %s(k%d)", t, co.kind, k)
+			}
+			switch {
+			case co.phase == 1:
+			case co.kind == "read" || co.kind == "write":
+				if (co.kind == "read" && sc.LateReads) || (co.kind == "write" && sc.LateWrites) {
+					dir.late = !sc.FaultAt[calloutIdx]
+				}
 				if sc.FaultAt[calloutIdx] {
 					nextErr++
 					dir.fault = nextErr
@@ -567,7 +594,7 @@ func runFoScenario(d *Driver, id string, sc foScenario, res *Result) (trace []st
 				}
 				calloutIdx++
 				step = fmt.Sprintf("resume g%d from %s(k%d)", t, co.kind, k)
-			case "build":
+			case co.kind == "build":
 				// C05 monitors: a builder invocation must not follow a completed successful build of a fresh value (SyncRead),
 				// nor a failed build within FailedUpdateTTL (failure cache on), for a context without SkipRead
 				b := foBuild{OK: true}
@@ -583,7 +610,7 @@ func runFoScenario(d *Driver, id string, sc foScenario, res *Result) (trace []st
 					nextErr++
 					dir.bErr = nextErr
 				}
-				if sc.Threads[t].Key == k && rng.Intn(4) == 0 {
+				if sc.Threads[t].Key == k && !sc.DFS && rng.Intn(4) == 0 {
 					dir.cancel = cancels[t]
 				}
 				step = fmt.Sprintf("resume g%d from build(k%d) -> %v", t, k, map[bool]string{true: "ok", false: "error"}[b.OK])
@@ -594,6 +621,14 @@ func runFoScenario(d *Driver, id string, sc foScenario, res *Result) (trace []st
 				if v := emit(&foViolation{"C04", "monitor", "fo:hang", "after " + step + ": " + hang[:min(len(hang), 500)], nil}); v != nil {
 					return trace, v
 				}
+			}
+			if dir.late {
+				// the operation took effect; its answer is still held back: nothing to tell the model yet
+				trace = append(trace, co.kind+"~")
+				if v := monitors(step + " (answer held back)"); v != nil {
+					return trace, v
+				}
+				continue
 			}
 			t1 := now()
 			switch co.kind {
@@ -834,6 +869,12 @@ func genFoScenario(profile string, seed int64, idx int, tier string) foScenario 
 	if profile == "c05" {
 		sc.Cfg.SR = true
 	}
+	switch rng.Intn(6) {
+	case 0, 1:
+		sc.LateReads = true
+	case 2:
+		sc.LateReads, sc.LateWrites = true, true
+	}
 	return sc
 }
 
@@ -921,6 +962,14 @@ func runFo(o Opts) *Result {
 	}
 	defer d.Close()
 	uniq := map[uint64]bool{}
+	if o.Profile == "dfs" {
+		res.Rule = "systematic: base scenarios = 2 (thorough: also 3) goroutines calling Get on one key x {Failover, FailoverOf} x key state {absent, stale, too stale} x " +
+			"{SyncUpdate, SyncRead, FailHard} x failure cache {off, on} x builder scripts {ok | err,ok | err,err}; for each base EVERY interleaving at call-out granularity " +
+			"is executed (stateless DFS over scheduler decisions), each compared step by step with the Lean machine and judged by all monitors; quick tier: a seeded slice of the " +
+			"bases bounded by n executions; distinct = distinct (base, call-out trace)"
+		runFoDFS(o, d, res)
+		return res
+	}
 	var scenarios []foScenario
 	if o.Profile == "table" {
 		scenarios = foTableScenarios()
@@ -1103,4 +1152,122 @@ func runFoPanicSuite(res *Result) {
 			res.TracesValidated++
 		}
 	}
+}
+
+// ---- systematic schedules -------------------------------------------------------------------------------------------
+// Profile dfs: for small base scenarios (2 goroutines, thorough: also 3, on one key; no backend faults) EVERY interleaving at
+// call-out granularity is executed - stateless depth-first search over the scheduler's decisions: run, then flip the last
+// decision that still has an untried alternative, replay the prefix, take the first enabled goroutine from there on.
+func foDFSBases(tier string) []foScenario {
+	var out []foScenario
+	threadCounts := []int{2}
+	if tier == "thorough" {
+		threadCounts = []int{2, 3}
+	}
+	for _, nT := range threadCounts {
+		for _, variant := range []string{"F", "Of"} {
+			for _, state := range []string{"absent", "stale", "toostale"} {
+				for bits := 0; bits < 8; bits++ {
+					for _, script := range [][]bool{{true}, {false, true}, {false, false}} {
+						su, sr, fh := bits&1 != 0, bits&2 != 0, bits&4 != 0
+						for _, fut := range []time.Duration{-1, 0} {
+							c := foCfg{Variant: variant, SU: su, SR: sr, FH: fh, FUT: fut}
+							c.Backend = map[string]string{"F": "sharded", "Of": "shardedOf"}[variant]
+							if variant == "F" && bits%2 == 1 {
+								c.Backend = "sync"
+							}
+							if state == "toostale" {
+								c.MS = time.Hour
+							}
+							sc := foScenario{Cfg: c, Keys: []foKey{{State: state, Val: 10}}, FaultAt: map[int]bool{}, Label: "dfs", DFS: true}
+							for t := 0; t < nT; t++ {
+								sc.Threads = append(sc.Threads, foThread{Key: 1, RewriteKey: 0})
+							}
+							for _, ok := range script {
+								sc.Builds = append(sc.Builds, foBuild{OK: ok})
+							}
+							out = append(out, sc)
+							if nT == 2 && fut == -1 {
+								late := sc
+								late.LateReads = true
+								out = append(out, late)
+							}
+						}
+					}
+				}
+			}
+		}
+	}
+	return out
+}
+
+func runFoDFS(o Opts, d *Driver, res *Result) {
+	bases := foDFSBases(o.Tier)
+	// quick tier: a seeded slice of the base scenarios; thorough: all of them. o.N bounds the number of executions.
+	order := rand.New(rand.NewSource(o.Seed * 7727)).Perm(len(bases))
+	runs, complete := 0, 0
+	uniq := map[uint64]bool{}
+	for _, bi := range order {
+		if runs >= o.N {
+			break
+		}
+		base := bases[bi]
+		var prefix []int
+		exhausted := false
+		nBase := 0
+		for runs < o.N {
+			var taken [][2]int
+			sc := base
+			sc.Choices, sc.Taken = prefix, &taken
+			res.Evaluations++
+			runs++
+			nBase++
+			id := fmt.Sprintf("d%d_%d", bi, nBase)
+			trace, v := runFoScenario(d, id, sc, res)
+			res.TracesValidated++
+			h := fnv.New64a()
+			h.Write([]byte(sc.Cfg.String() + fmt.Sprint(bi) + strings.Join(trace, ",")))
+			uniq[h.Sum64()] = true
+			if len(res.Samples) < 3 && nBase == 3 {
+				smp := sc.describe()
+				smp["callout_trace"] = strings.Join(trace, ",")
+				res.Samples = append(res.Samples, smp)
+			}
+			if v != nil && v.kind != "ambig" {
+				smp := sc.describe()
+				choices := make([]int, len(taken))
+				for i, c := range taken {
+					choices[i] = c[0]
+				}
+				smp["dfs_choices"] = choices
+				smp["callout_trace"] = strings.Join(trace, ",")
+				smp["engine"], smp["profile"], smp["base"] = "fo", "dfs", bi
+				res.Violations = append(res.Violations, Violation{Property: v.prop, Also: v.also, Kind: v.kind, Sig: v.sig, Detail: v.detail, Replay: smp})
+				if res.full() {
+					return
+				}
+			}
+			// backtrack: the last decision with an untried alternative
+			i := len(taken) - 1
+			for i >= 0 && taken[i][0]+1 >= taken[i][1] {
+				i--
+			}
+			if i < 0 {
+				exhausted = true
+				break
+			}
+			prefix = make([]int, i+1)
+			for j := 0; j < i; j++ {
+				prefix[j] = taken[j][0]
+			}
+			prefix[i] = taken[i][0] + 1
+		}
+		if exhausted {
+			complete++
+			res.countN("dfs:schedules-of-completed-bases", nBase)
+		}
+	}
+	res.countN("dfs:bases-explored-completely", complete)
+	res.countN("dfs:bases-total", len(bases))
+	res.DistinctNontrivial += len(uniq)
 }
